@@ -189,6 +189,52 @@ example : ∃ c, tryLock (run (demoOps.take 1) (Sys.init 3)).t 0 2 [11, 12] = ((
   ⟨1, rfl⟩
 example : (run demoOps (Sys.init 3)).t.locks = [] ∧ (run demoOps (Sys.init 3)).t.nextHandle = 3 := by decide
 
+/-! ### lock manager + wait-for graph (`*_with_wait_*`): what happens when a transaction ends -/
+
+/-- the full-strength statement the property asks for: once every lock handle of `tx` has been
+    released through `release_by_handle_with_wait_cleanup`, `tx` is neither waiter nor holder in
+    the wait-for graph.  It is **false of the current code** (see the witness below), so it is kept
+    as a `def` and not claimed. -/
+def EndedTxAbsentFromGraph : Prop :=
+  ∀ (t : LockTable) (g : WaitGraph) (h tx : Nat),
+    -- `h` is the only handle under which `tx` holds anything
+    t.locks.all (fun p => p.2.tx != tx || p.2.handle == h) = true →
+    aGet (releaseByHandleWait t g h).2.edges tx = none ∧
+    ∀ w, tx ∉ (aGet (releaseByHandleWait t g h).2.edges w).getD []
+
+/-- witness (mirrors the failing input replayed on the real coordinator): T1 is granted key 7,
+    T3 is refused and waits for T1, T1's lock expires and T2 takes the key over, then T1 ends —
+    `release_by_handle_with_wait_cleanup` finds no lock with T1's handle, skips the graph cleanup,
+    and the edge T3 → T1 stays. -/
+theorem ended_tx_absent_from_graph_witness : ¬ EndedTxAbsentFromGraph := by
+  intro h
+  let s1 := tryLockWait (LockTable.empty 3) (WaitGraph.empty 0) 0 0 1 [7] none
+  let s2 := tryLockWait s1.1 s1.2.1 0 0 3 [7] none
+  let s3 := tryLockWait s2.1 s2.2.1 10 10 2 [7] none
+  have := (h s3.1 s3.2.1 0 1 (by decide)).2 3
+  exact absurd this (by decide)
+
+/-- what does hold (`_partial`: only when the release still *finds* a lock carrying the handle, and
+    only the waiter side — the missing part is exactly the witness above): the transaction that
+    owned the found lock loses its out-edges, wait-start and priority. -/
+theorem ended_tx_cleanup_partial (t : LockTable) (g : WaitGraph) (h k : Nat) (l : KeyLock)
+    (hl : (k, l) ∈ t.locks) (hh : l.handle = h)
+    (hsame : ∀ p ∈ t.locks, p.2.handle = h → p.2.tx = l.tx) :
+    aGet (releaseByHandleWait t g h).2.edges l.tx = none ∧
+    aGet (releaseByHandleWait t g h).2.waitStarted l.tx = none := by
+  have hin : l.tx ∈ (t.locks.filter (fun p => p.2.handle == h)).map (·.2.tx) :=
+    List.mem_map.mpr ⟨(k, l), List.mem_filter.mpr ⟨hl, by simp [hh]⟩, rfl⟩
+  have hfound : ((t.locks.filter (fun p => p.2.handle == h)).map (·.2.tx)).getLast? = some l.tx := by
+    cases hlast : ((t.locks.filter (fun p => p.2.handle == h)).map (·.2.tx)).getLast? with
+    | none => rw [List.getLast?_eq_none_iff] at hlast; rw [hlast] at hin; simp at hin
+    | some tx =>
+      obtain ⟨p, hp, e⟩ := List.mem_map.mp (List.mem_of_getLast? hlast)
+      have hp' := List.mem_filter.mp hp
+      rw [← e, hsame p hp'.1 (by simpa using hp'.2)]
+  unfold releaseByHandleWait
+  simp only [hfound]
+  exact ⟨(removeTransaction_waiter_gone g l.tx).1, (removeTransaction_waiter_gone g l.tx).2.1⟩
+
 /-! ### wait-for graph and deadlock detection -/
 
 /-- **Soundness**: every cycle reported by `detect_cycles` (for every adjacency, in every iteration
